@@ -100,8 +100,7 @@ class Decl:
         if self.kind == 'dec':
             return {'k': 'dec', 'min': None if t.get('min') is None else num_of_dec(Decimal(t['min'])),
                     'max': None if t.get('max') is None else num_of_dec(Decimal(t['max']))}
-        ml = t.get('max_len_pos', t.get('max_len'))
-        return {'k': 'str', 'long': bool(t.get('long')), 'max_len': ml, 'dflt_len': None, 'autostrip': bool(t.get('autostrip', True))}
+        return {'k': 'str', 'long': bool(t.get('long')), 'max_len_pos': t.get('max_len_pos'), 'max_len': t.get('max_len'), 'dflt_len': None, 'autostrip': bool(t.get('autostrip', True))}
     def model_attr(self, dflt_norm):
         return {'required': self.required, 'nullable': self.nullable(), 'none_ok': self.none_ok(),
                 'default': enc(dflt_norm), 'has_check': self.check is not None}
@@ -394,12 +393,28 @@ def aux_for(d, w):
         except Exception as e: a['conv'] = {'error': type(e).__name__}
     return a
 
+def check_result(d, w):
+    """truthiness of py_check on the converted value (whatever the bounds say); True when there is no check or no converted value"""
+    if d.check is None or w is None or w is DEFAULT: return True
+    try:
+        if d.kind == 'int': n = w if isinstance(w, int) else int(w) if isinstance(w, str) else None
+        elif d.kind == 'float': n = float(w)
+        elif d.kind == 'dec': n = py_dec(w)
+        else: n = (w.strip() if d.topts.get('autostrip', True) else w) if isinstance(w, str) else None
+        if n is None: return True
+        return bool(CHECKS[d.check](n))
+    except Exception:
+        return True
+
 def storable(d, r):
     """can the accepted value be bound as an SQLite parameter at all (lookups by value need that; C07's subject otherwise)"""
     if isinstance(r, bool) or r is None: return True
     if isinstance(r, int): return -I64 <= r < I64
     if isinstance(r, float): return r == r
-    if isinstance(r, Decimal): return r.is_finite()
+    if isinstance(r, Decimal):
+        if not r.is_finite(): return False
+        try: r.quantize(Decimal(10) ** -d.topts.get('scale', 2)); return True      # SQLiteDecimalConverter.py2sql
+        except InvalidOperation: return False
     return True
 
 class Work:
@@ -426,9 +441,7 @@ def run_decl(ctx, d, cands, work):
     mt = d.model_type()
     # model: mapping outcome = init of the converter, then validation of a static default
     probe = dict(op='validate', type=mt, attr=d.model_attr(None), value=enc(dflt) if dflt is not None else None, entry='assign', check=True, **aux_for(d, dflt))
-    if dflt is not None and d.check is not None:
-        rr = spec_convert(d, dflt)
-        probe['check'] = bool(CHECKS[d.check](rr[1])) if rr[0] == 'ok' else True
+    probe['check'] = check_result(d, dflt)
     work.reqs.append(probe); work.meta.append(('mapping', d, text, map_out, dflt))
     ctx.case(['mapping', text], kind='mapping:' + kind)
     ctx.count('mapping-outcome:%s:%s' % (kind, map_out[-1] if map_out[0] == 'error' else 'ok'))
@@ -459,10 +472,7 @@ def run_decl(ctx, d, cands, work):
         exp = spec(d, v, dflt_norm)
         w = dflt_norm if v is DEFAULT else v
         aux = aux_for(d, w)
-        chk = True
-        if d.check is not None:
-            sc = spec_convert(d, w) if w is not None else ('reject',)
-            if sc[0] == 'ok': chk = bool(CHECKS[d.check](sc[1]))
+        chk = check_result(d, w)
         outcomes = {}
         for entry in ENTRIES:
             if entry != 'create' and (v is DEFAULT or base_id is None): continue
@@ -599,9 +609,9 @@ def run(ctx):
         for d in core_ds + rest + opt + extra:
             plans.append((d, cand))
         ctx.count('declarations:' + name, len(core_ds + rest + opt + extra))
+    nan_witness(ctx)
     for d, cand in plans:
         run_decl(ctx, d, cand(d), work)
-    nan_witness(ctx)
     compare_with_model(ctx, work)
     strip_tie(ctx)
     ctx.note('float and Decimal conversions float(v)/Decimal(v) are Python built-ins: the model receives their results; the bound tests are on exact rationals')
